@@ -316,8 +316,8 @@ func makeFiles() []fileSpec {
 	return []fileSpec{
 		{"a.txt", text(100, "a")},
 		{"mid.txt", text(9000, "m")},
-		{"big.txt", text(50000, "b")},
-		{"d/c.html", text(24000, "<p>c</p>")},
+		{"big.txt", text(30000, "b")},
+		{"d/c.html", text(14000, "<p>c</p>")},
 	}
 }
 
@@ -358,7 +358,7 @@ func genParams(rnd *rand.Rand) params {
 		p.inner = "osfs"
 	}
 	p.skipCache = rnd.Intn(5) == 0
-	p.compress = rnd.Intn(5) < 2
+	p.compress = rnd.Intn(10) < 3
 	p.cacheDur = time.Duration(10+rnd.Intn(31)) * time.Millisecond
 	switch k := rnd.Intn(20); {
 	case k < 8:
@@ -368,8 +368,8 @@ func genParams(rnd *rand.Rand) params {
 	default:
 		p.stopMode = "gc"
 	}
-	p.clients = 3 + rnd.Intn(8)
-	p.reqs = 6 + rnd.Intn(11)
+	p.clients = 3 + rnd.Intn(6)
+	p.reqs = 5 + rnd.Intn(8)
 	p.slowPct = 30 + rnd.Intn(50)
 	p.abortPct = rnd.Intn(8)
 	return p
@@ -656,6 +656,7 @@ func runCase(r *mon.Run, i int, tmp string) (res caseResult) {
 		}
 	}
 
+	t0 := time.Now()
 	ok := mon.Watchdog(180*time.Second, func() {
 		for ci := 0; ci < p.clients; ci++ {
 			cliWG.Add(1)
@@ -671,6 +672,12 @@ func runCase(r *mon.Run, i int, tmp string) (res caseResult) {
 	}
 	res.bodies, res.bodiesSlow, res.aborted, res.fdPeak = int(bodies.Load()), int(slowBodies.Load()), int(aborted.Load()), int(fdPeak.Load())
 
+	tServed := time.Since(t0)
+	defer func() {
+		if os.Getenv("C25_DEBUG") != "" {
+			fmt.Fprintf(os.Stderr, "case %d %+v: served in %v, total %v, ticks %d\n", i, p, tServed, time.Since(t0), cs.cleanerTicks.Load())
+		}
+	}()
 	// --- stop the cache manager
 	switch p.stopMode {
 	case "end", "mid":
@@ -755,7 +762,7 @@ func runCase(r *mon.Run, i int, tmp string) (res caseResult) {
 func TestC25(t *testing.T) {
 	r := mon.Start(t, "C25")
 	defer r.Finish()
-	r.Rule("case = one FS handler (counting fs.FS over fstest.MapFS or os.DirFS, or the plain os root with /proc/self/fd counting; CacheDuration 10-40 ms; SkipCache, Compress on/off) served by Server.ServeConn to 3-10 concurrent clients x 6-16 requests over net.Pipe / fasthttputil pipes for 4 files, a directory index and a missing path (GET/HEAD, Range, gzip, If-Modified-Since); 30-80% of the clients read some bodies in 3-10 chunks with 1-6 ms pauses (holding a reader across cleaner ticks), some abort mid-body; CleanStop is closed after a generated number of completed requests (mid traffic), at the end, or never (handler dropped, runtime cleanup closes the manager); a seeded hook yields/sleeps at fs.cache.got / fs.cache.set / fs.dec.unlocked and always delays fs.clean.collected. distinct = set of (inner fs, skip, compress, stop mode, duration bucket, client bucket); non-trivial = the cleaner ran at least once during the case (or SkipCache)")
+	r.Rule("case = one FS handler (counting fs.FS over fstest.MapFS or os.DirFS, or the plain os root with /proc/self/fd counting; CacheDuration 10-40 ms; SkipCache, Compress on/off) served by Server.ServeConn to 3-8 concurrent clients x 5-12 requests over net.Pipe / fasthttputil pipes for 4 files, a directory index and a missing path (GET/HEAD, Range, gzip, If-Modified-Since); 30-80% of the clients read some bodies in 3-10 chunks with 1-6 ms pauses (holding a reader across cleaner ticks), some abort mid-body; CleanStop is closed after a generated number of completed requests (mid traffic), at the end, or never (handler dropped, runtime cleanup closes the manager); a seeded hook yields/sleeps at fs.cache.got / fs.cache.set / fs.dec.unlocked and always delays fs.clean.collected. distinct = set of (inner fs, skip, compress, stop mode, duration bucket, client bucket); non-trivial = the cleaner ran at least once during the case (or SkipCache)")
 	r.Assume("all interleavings is replaced by the interleavings actually produced (signatures counted in the evidence); a handle is judged never closed only after every ServeConn returned, the cache manager was closed and a goroutine dump shows neither the case's cleaner goroutine nor any Release/Close in progress; otherwise the case is inconclusive")
 	r.Assume("closing CleanStop while requests are in flight is exercised although the field comment discourages it: the property statement quantifies over it")
 	tmp := filepath.Join(os.TempDir(), fmt.Sprintf("c25-%d", os.Getpid()))
@@ -765,7 +772,7 @@ func TestC25(t *testing.T) {
 	fasthttp.VerifSetPointHook(hook)
 	defer fasthttp.VerifSetPointHook(nil)
 
-	n := r.N(160, 4000)
+	n := r.N(128, 4000)
 	var mu sync.Mutex
 	sigs := map[uint64]struct{}{}
 	bigrams := map[string]int{}
